@@ -1,9 +1,9 @@
 package split
 
 import (
-	"go.uber.org/zap"
 	"github.com/ozontech/file.d/pipeline"
 	insaneJSON "github.com/ozontech/insane-json"
+	"go.uber.org/zap"
 
 	vf "github.com/ozontech/file.d/zzverif"
 )
